@@ -588,6 +588,11 @@ def configs(tier):
     cf.append({"progs": ["T15", "T15"], "kinds": ["explicit", "exit_before", "enter_before"], "mode": "random", "n": 300})
     cf.append({"progs": ["T15", "T16"], "kinds": ["explicit"], "mode": "dfs", "budget": 2500})
     cf.append({"progs": ["T16", "T16"], "kinds": ["explicit", "enter_after"], "mode": "random", "n": 200})
+    cf.append({"progs": ["T5", "T5"], "kinds": ["rule"], "mode": "random", "n": 200})
+    cf.append({"progs": ["T5", "T4"], "kinds": ["line_bp"], "mode": "random", "n": 120})
+    cf.append({"progs": ["T5", "T5"], "kinds": ["line_rules"], "mode": "random", "n": 200})
+    cf.append({"progs": ["T5", "T2", "T5"], "kinds": ["line_rules"], "mode": "random", "n": 120})
+    cf.append({"progs": ["T3", "T6"], "kinds": ["line_rules"], "mode": "random", "n": 120})
     cf.append({"progs": ["T13", "T13"], "kinds": ["rule"], "mode": "dfs"})
     cf.append({"progs": ["T13", "T13", "T13"], "kinds": ["rule"], "mode": "random", "n": 200})
     cf.append({"progs": ["T1", "T13"], "kinds": ["rule", "enter_after"], "mode": "random", "n": 200})
@@ -619,6 +624,10 @@ def run_shard(pid, tier, seed, idx, n):
         try:
             if "line" in c["kinds"]:
                 ly = LineYield()
+                ly.start()
+            elif "line_rules" in c["kinds"]:
+                # LINE events inside the derivative rules themselves (shared helper state of a rule module)
+                ly = LineYield(files=("numpy/numpy_vjps.py", "numpy/numpy_jvps.py", "numpy/linalg.py", "numpy/fft.py", "builtins.py"), kind="line_rules")
                 ly.start()
             elif "line_bp" in c["kinds"]:
                 # LINE events inside the backward pass machinery (toposort, backward_pass, add_outgrads)
